@@ -50,6 +50,35 @@ def run(ctx, drv):
                            "every argument passed to the problem function validated against the declared types; + default operator "
                            "registry per type; + exhaustive decode of all bit strings for Integer ranges of width 1..40 with assorted "
                            "lower bounds; + 2000 generator draws per type")
+    # ---- the declared types of a problem object changed between two optimisations (default operators are process-wide objects):
+    # the second optimisation must respect the types as declared now
+    import random as _random
+    import plat
+    from platypus import Problem, Real, Integer, algorithms as A
+    rng = ctx.rng
+    for name in ("NSGAII", "GeneticAlgorithm", "EvolutionaryStrategy", "SMPSO", "SPEA2"):
+        for first, second in (((-10.0, 10.0), (0.0, 0.5)), ((0.0, 1.0), (5.0, 6.0)), ((-1.0, 1.0), (-1.0, -0.999))):
+            seen = []
+            single = name in ("GeneticAlgorithm", "EvolutionaryStrategy")
+            fn = (lambda x: (seen.append(list(x)) or [sum(v * v for v in x)])) if single else (lambda x: (seen.append(list(x)) or [sum(v * v for v in x), sum((v - 1) ** 2 for v in x)]))
+            p = Problem(3, 1 if single else 2, function=fn)
+            p.types[:] = Real(*first)
+            _random.seed(rng.randrange(2 ** 31))
+            mk = (lambda: A.SMPSO(p, swarm_size=8, leader_size=8)) if name == "SMPSO" else (lambda: getattr(A, name)(p, population_size=8))
+            r1 = plat.call(lambda: mk().run(120))
+            p.types[:] = Real(*second)
+            del seen[:]
+            r2 = plat.call(lambda: mk().run(160))
+            inp = {"algorithm": name, "first_declared": list(first), "then_declared": list(second), "operators": "library defaults"}
+            if isinstance(r1, str) or isinstance(r2, str):
+                ctx.notes.append(f"re-declared-types run aborted: {name}: {r1 if isinstance(r1, str) else r2}")
+                continue
+            bad = [x for x in seen if not all(second[0] <= v <= second[1] for v in x)]
+            if bad:
+                ctx.fail("invalid-argument-to-problem-function", dict(inp, argument=bad[0]), bad[0], f"every variable in [{second[0]}, {second[1]}]",
+                         f"algorithms.{name} (operators / types)")
+            ctx.case(("redeclared-types", name, first, second), True)
+    ctx.count("redeclared_type_runs", 15)
     # ---- registry
     for tname, cls in (("Real", T.Real), ("Binary", T.Binary), ("Integer", T.Integer), ("Permutation", T.Permutation), ("Subset", T.Subset)):
         for what, getter in (("variator", PlatypusConfig.default_variator), ("mutator", PlatypusConfig.default_mutator)):
